@@ -171,7 +171,15 @@ func TestVerifC14(t *testing.T) {
 			return
 		}
 		if a.status != 0 && a.status != 200 {
+			if a.status == 206 {
+				w.Header().Set("Content-Range", fmt.Sprintf("bytes 0-%d/%d", len(a.body)-1, 2*len(a.body)))
+			}
 			w.WriteHeader(a.status)
+			if a.body != "" && a.status != 204 && a.status != 304 {
+				// round 6 (L): a status other than 200 may carry a body (a part of
+				// the list with 206, all of it with 203)
+				w.Write([]byte(a.body))
+			}
 			return
 		}
 		if a.raw != nil {
@@ -283,6 +291,21 @@ func TestVerifC14(t *testing.T) {
 	s.Case("fail-status", dst, nil, []string{"filtering", "dst-present", "bytes", "failed-download", "fail-status"}, func(c *verifc14.Case) {
 		upd(c, d, f, "update-500", true)
 	})
+	// round 6 (L): 2xx statuses that are not 200, with the bodies they carry: a
+	// part of the new list (206, cut in the middle of a rule), nothing (204),
+	// the whole new list (203): the stored list must stay, byte for byte
+	for _, sa := range []answer{
+		{status: 206, body: "||p1.example^\n||p2.example^\n||p3.exa"},
+		{status: 204},
+		{status: 203, body: "||q1.example^\n||q2.example^\n"},
+		{status: 304},
+	} {
+		serve(path(f), sa)
+		s.Case(fmt.Sprintf("fail-status-%d", sa.status), dst, nil, []string{"filtering", "dst-present", "bytes", "failed-download", "fail-status", "fail-status-not-200"}, func(c *verifc14.Case) {
+			c.Info["status"], c.Info["body_sent_with_it"] = sa.status, sa.body
+			upd(c, d, f, fmt.Sprintf("update-%d", sa.status), true)
+		})
+	}
 	serve(path(f), answer{body: "||x.example^\n||y.example^\n||bad\x01char.example^\n||z.example^\n"})
 	s.Case("fail-binary", dst, nil, []string{"filtering", "dst-present", "bytes", "failed-download", "refresh-fails-after-first-rule", "fail-binary-char"}, func(c *verifc14.Case) {
 		upd(c, d, f, "update-binary", true)
